@@ -392,7 +392,7 @@ class SeqExec(HeapExec):
                 spec = self.reg.statics[(c, m)]
                 yield from self.apply_named(spec, pos, kw, p, "call:%s.%s" % (c, m))
             else:
-                spec = self.reg.methods[(c, m)]
+                spec = getattr(self.reg, "methods_for_callers", {}).get((c, m)) or self.reg.methods[(c, m)]
                 yield from self.apply_named(spec, [obj] + pos, kw, p, "call:%s.%s" % (c, m))
         elif fv.k == "class":
             spec = self.reg.classes[fv.t]
